@@ -72,6 +72,50 @@ def lenientNat (bits : Nat) (s : Str) : Nat :=
   | some n => n
   | none => 0
 
+/-! ## Base64 as Qt does it
+
+`QByteArray::toBase64()` (standard alphabet, `=` padding) and `QByteArray::fromBase64Encoding(…)`
+with the default options = *ignore* decoding errors (`parseBase64` in QXmppUtils.cpp calls it that
+way): every character outside the alphabet, `=` included, is skipped; the remaining sextets are
+concatenated and cut into whole bytes, left-over bits are dropped. -/
+
+def b64Char (d : Nat) : Char :=
+  if d < 26 then Char.ofNat (65 + d)
+  else if d < 52 then Char.ofNat (71 + d)
+  else if d < 62 then Char.ofNat (d - 4)
+  else if d = 62 then '+' else '/'
+
+def b64Val (c : Char) : Option Nat :=
+  let n := c.toNat
+  if 65 ≤ n ∧ n ≤ 90 then some (n - 65)
+  else if 97 ≤ n ∧ n ≤ 122 then some (n - 71)
+  else if 48 ≤ n ∧ n ≤ 57 then some (n + 4)
+  else if n = 43 then some 62
+  else if n = 47 then some 63
+  else none
+
+def b64enc : List Nat → Str
+  | [] => []
+  | [a] => [b64Char (a / 4), b64Char (a % 4 * 16), '=', '=']
+  | [a, b] => [b64Char (a / 4), b64Char (a % 4 * 16 + b / 16), b64Char (b % 16 * 4), '=']
+  | a :: b :: c :: rest =>
+    b64Char (a / 4) :: b64Char (a % 4 * 16 + b / 16) :: b64Char (b % 16 * 4 + c / 64) :: b64Char (c % 64)
+      :: b64enc rest
+
+/-- sextets → bytes -/
+def regroup : List Nat → List Nat
+  | d0 :: d1 :: d2 :: d3 :: rest =>
+    (d0 * 4 + d1 / 16) :: (d1 % 16 * 16 + d2 / 4) :: (d2 % 4 * 64 + d3) :: regroup rest
+  | [d0, d1, d2] => [d0 * 4 + d1 / 16, d1 % 16 * 16 + d2 / 4]
+  | [d0, d1] => [d0 * 4 + d1 / 16]
+  | _ => []
+
+def b64dec (s : Str) : List Nat := regroup (s.filterMap b64Val)
+
+/-- a `QByteArray` is carried as the string of its bytes (Latin-1) -/
+def bytesOf (s : Str) : List Nat := s.map Char.toNat
+def strOfBytes (bs : List Nat) : Str := bs.map Char.ofNat
+
 /-! ## scalar field types -/
 
 /-- position of `s` in `names` (`enumFromString`) -/
@@ -101,6 +145,11 @@ inductive FTy
   | flag (trues : List Str)
   /-- `std::optional<Enum>` via `enumFromString`: index into `names`, unknown ⇒ nullopt -/
   | enum (names : List Str)
+  /-- `Enum` via `enumFromString(…).value_or(names[dflt])`: unknown or absent ⇒ the default member -/
+  | enumD (names : List Str) (dflt : Nat)
+  /-- `QByteArray` carried as Base64 text (`parseBase64` / `toBase64`); the value is the Latin-1
+  string of the bytes -/
+  | b64
   deriving Repr, BEq, DecidableEq
 
 /-- field values.  `absent` = absent optional record, `record` = nested record, `list` = repeated items
@@ -123,6 +172,8 @@ def FTy.parse : FTy → Str → Val
   | .optNat b, s => .opt (strictNat b s)
   | .flag ts, s => .flag (ts.contains s)
   | .enum ns, s => .opt (idxOf s ns)
+  | .enumD ns d, s => .nat (match idxOf s ns with | some i => i | none => d)
+  | .b64, s => .str (strOfBytes (b64dec s))
 
 /-- value → string as the class prints it; `[]` for values that are never printed -/
 def FTy.show : FTy → Val → Str
@@ -131,6 +182,8 @@ def FTy.show : FTy → Val → Str
   | .optNat _, .opt (some n) => natToStr n
   | .flag ts, .flag true => ts.headD []
   | .enum ns, .opt (some i) => nth ns i
+  | .enumD ns _, .nat i => nth ns i
+  | .b64, .str s => b64enc (bytesOf s)
   | _, _ => []
 
 /-- the value for which an omitting writer (`writeOptionalXmlAttribute`, `if (x > 0)`,
@@ -141,6 +194,8 @@ def FTy.isDefault : FTy → Val → Bool
   | .optNat _, .opt i => i.isNone
   | .flag _, .flag b => !b
   | .enum _, .opt i => i.isNone
+  | .enumD _ d, .nat i => i == d
+  | .b64, .str s => s.isEmpty
   | _, _ => true
 
 /-- values of the right shape and range -/
@@ -152,12 +207,15 @@ def FTy.canon : FTy → Val → Bool
   | .flag _, .flag _ => true
   | .enum _, .opt Option.none => true
   | .enum ns, .opt (some i) => i < ns.length
+  | .enumD ns d, .nat i => i < ns.length || i == d
+  | .b64, .str s => s.all fun c => c.toNat < 256
   | _, _ => false
 
 /-- a scalar type is usable: flag spellings non-empty, enum names non-empty and distinct -/
 def FTy.wf : FTy → Bool
   | .flag ts => !ts.isEmpty && !ts.contains []
   | .enum ns => !ns.contains [] && nodupB ns
+  | .enumD ns _ => !ns.contains [] && nodupB ns
   | _ => true
 
 /-! ## trees -/
@@ -182,6 +240,8 @@ structure Head where
   decl : Bool
   /-- the parser looks the child up by tag only (`firstChildElement(el, tag)` without namespace) -/
   anyNs : Bool
+  /-- the parser takes child elements of any name (`iterChildElements(el)` without tag) -/
+  anyTag : Bool := false
   deriving Repr, BEq, DecidableEq
 
 def xmlnsKey : Str := "xmlns".toList
@@ -193,7 +253,7 @@ def Head.mk' (h : Head) (as : List (Str × Str)) (ks : List Node) : Node :=
 
 /-- `firstChildElement(parent, tag, ns)`'s test on one child; `pns` = namespace of the parent -/
 def Head.matches (h : Head) (pns : Str) (k : Node) : Bool :=
-  k.isElem && k.name == h.tag && (h.anyNs || k.nsOf pns == h.ns)
+  k.isElem && (h.anyTag || k.name == h.tag) && (h.anyNs || k.nsOf pns == h.ns)
 
 /-- `firstChildElement(parent, {}, ns)`'s test (any tag) -/
 def matchesNs (ns : Str) (anyNs : Bool) (pns : Str) (k : Node) : Bool :=
@@ -226,8 +286,9 @@ inductive Field
   | enumChild (ns : Str) (decl anyNs : Bool) (names : List Str) (mandatory : Bool)
   /-- nested record / wrapper -/
   | child (h : Head) (fields : List Field) (mode : ChildMode)
-  /-- repeated items (`iterChildElements(el, tag, ns)`) -/
-  | many (h : Head) (fields : List Field)
+  /-- repeated items (`iterChildElements(el, tag, ns)`); `nonEmpty`: `fromDom` rejects the element
+  when there is no item -/
+  | many (h : Head) (fields : List Field) (nonEmpty : Bool)
   deriving Repr
 
 /-- `<tag>text</tag>` child (`writeXmlTextElement` / `writeOptionalXmlTextElement`) -/
@@ -265,7 +326,7 @@ mutual
         let r := encFs fs vs
         if mode == .wrapOmit && r.1.isEmpty && r.2.isEmpty then ([], []) else ([], [h.mk' r.1 r.2])
       | _ => ([], [])
-    | .many h fs, v =>
+    | .many h fs _, v =>
       match v with
       | .list items => ([], items.map fun it => let r := encFs fs it.recVals; h.mk' r.1 r.2)
       | _ => ([], [])
@@ -294,7 +355,7 @@ mutual
       match x.kids.find? (h.matches pns) with
       | some k => .record (decFs (k.nsOf pns) k fs)
       | none => if mode == .optional then .absent else .record (decFs h.ns nullNode fs)
-    | .many h fs =>
+    | .many h fs _ =>
       .list ((x.kids.filter (h.matches pns)).map fun k => .record (decFs (k.nsOf pns) k fs))
   def decFs (pns : Str) (x : Node) : List Field → List Val
     | [] => []
@@ -318,7 +379,7 @@ mutual
       | .absent => mode == .optional
       | .record vs => canonFs fs vs
       | _ => false
-    | .many _ fs, v =>
+    | .many _ fs _, v =>
       match v with
       | .list items => items.all fun it => match it with
         | .record vs => canonFs fs vs
@@ -339,7 +400,7 @@ def Field.heads : Field → List (Str × Str)
   | .text _ => []
   | .enumChild ns _ _ names _ => names.map fun n => (n, ns)
   | .child h _ _ => [(h.tag, h.ns)]
-  | .many h _ => [(h.tag, h.ns)]
+  | .many h _ _ => [(h.tag, h.ns)]
 
 def Field.emitsKids : Field → Bool
   | .attr .. => false
@@ -353,7 +414,7 @@ def Field.sees (pns : Str) : Field → Node → Bool
   | .text _, _ => true
   | .enumChild ns _ anyNs _ _, k => matchesNs ns anyNs pns k
   | .child h _ _, k => h.matches pns k
-  | .many h _, k => h.matches pns k
+  | .many h _ _, k => h.matches pns k
 
 /-- the attribute names field `f` reads -/
 def Field.reads : Field → Str → Bool
@@ -385,11 +446,11 @@ def indep (f g : Field) : Bool :=
   | .child h _ _ =>
     match g with
     | .text _ => true
-    | _ => g.heads.all fun hd => !(hd.1 == h.tag && (h.anyNs || hd.2 == h.ns))
-  | .many h _ =>
+    | _ => g.heads.all fun hd => !((h.anyTag || hd.1 == h.tag) && (h.anyNs || hd.2 == h.ns))
+  | .many h _ _ =>
     match g with
     | .text _ => true
-    | _ => g.heads.all fun hd => !(hd.1 == h.tag && (h.anyNs || hd.2 == h.ns))
+    | _ => g.heads.all fun hd => !((h.anyTag || hd.1 == h.tag) && (h.anyNs || hd.2 == h.ns))
 
 /-- the child ends up in namespace `h.ns` when written inside an element of namespace `pns` -/
 def Head.ok (pns : Str) (h : Head) : Bool := h.decl || h.ns == pns
@@ -401,34 +462,52 @@ mutual
     | .text ty => ty.wf
     | .enumChild ns decl _ names _ => (decl || ns == pns) && !names.contains [] && nodupB names
     | .child h fs _ => h.ok pns && wfFs h.ns fs
-    | .many h fs => h.ok pns && wfFs h.ns fs
+    | .many h fs _ => h.ok pns && wfFs h.ns fs
   def wfFs (pns : Str) : List Field → Bool
     | [] => true
     | f :: fs => wfF pns f && fs.all (fun g => indep f g && indep g f) && wfFs pns fs
 end
 
--- `mandatory` is only supported for fields of the top-level element
+/-! mandatory parts: `fromDom` rejects the element when they are missing.  Supported at the top level
+and inside wrappers, not inside optional records or repeated items (`mandPlaced`). -/
 mutual
   def noMandF : Field → Bool
     | .enumChild _ _ _ _ m => !m
     | .child _ fs _ => noMandFs fs
-    | .many _ fs => noMandFs fs
+    | .many _ fs ne => !ne && noMandFs fs
     | _ => true
   def noMandFs : List Field → Bool
     | [] => true
     | f :: fs => noMandF f && noMandFs fs
 end
 
-def nestedNoMand : Field → Bool
-  | .child _ fs _ => noMandFs fs
-  | .many _ fs => noMandFs fs
-  | _ => true
+mutual
+  def mandPlacedF : Field → Bool
+    | .child _ fs mode => if mode == .optional then noMandFs fs else mandPlacedFs fs
+    | .many _ fs _ => noMandFs fs
+    | _ => true
+  def mandPlacedFs : List Field → Bool
+    | [] => true
+    | f :: fs => mandPlacedF f && mandPlacedFs fs
+end
 
-/-- mandatory top-level fields carry a value -/
-def mandOK : List Field → List Val → Bool
-  | .enumChild _ _ _ _ true :: fs, v :: vs => v.isSomeOpt && mandOK fs vs
-  | _ :: fs, _ :: vs => mandOK fs vs
-  | _, _ => true
+mutual
+  /-- mandatory parts carry a value -/
+  def mandF : Field → Val → Bool
+    | .enumChild _ _ _ _ m, v => !m || v.isSomeOpt
+    | .many _ _ ne, v =>
+      match v with
+      | .list items => !ne || !items.isEmpty
+      | _ => true
+    | .child _ fs mode, v =>
+      match v with
+      | .record vs => mode == .optional || mandOK fs vs
+      | _ => true
+    | _, _ => true
+  def mandOK : List Field → List Val → Bool
+    | f :: fs, v :: vs => mandF f v && mandOK fs vs
+    | _, _ => true
+end
 
 /-! ## classes -/
 
@@ -452,7 +531,7 @@ structure Schema where
 
 def Schema.WF (S : Schema) : Prop :=
   S.head.ok S.inh = true ∧ S.head.tag ≠ [] ∧ wfFs S.head.ns S.fields = true
-    ∧ S.fields.all nestedNoMand = true
+    ∧ mandPlacedFs S.fields = true
 
 instance (S : Schema) : Decidable S.WF := by unfold Schema.WF; infer_instance
 
